@@ -40,8 +40,13 @@ type ProcSpec struct {
 	// FifoChunks is the read schedule of named pipes opened by path.
 	FifoChunks []int
 	SinkLimit  int // bytes stdout accepts before failing; <0 = unlimited
-	Faults     []Fault
-	PowerLoss  *PowerLoss
+	// SinkErr says how stdout fails once it is full: "" or "enospc" (a full
+	// disk behind a redirection), "eio", or "epipe" - the reader of a pipe
+	// went away; unless the program ignores SIGPIPE the write kills it, as
+	// the signal does a real process.
+	SinkErr   string
+	Faults    []Fault
+	PowerLoss *PowerLoss
 }
 
 // OpRec is one executed operation, kept so that generators can aim faults.
@@ -53,6 +58,7 @@ type OpRec struct {
 	Off   int64
 	Len   int
 	Res   string
+	To    string // rename: the new path
 }
 
 // CrashSentinel is the panic value with which a killed process unwinds.
@@ -81,15 +87,17 @@ type Proc struct {
 	Ops     int
 	Faults  []Fault
 	Crashed bool
-	Stdin   *File
-	Stdout  *File
-	Stderr  *File
-	fds     map[int]*File
-	nextFd  int
-	touched []*touch
-	Trace   []OpRec
-	Fired   []string
-	pl      *PowerLoss
+	// Signalled names the signal that ended the process, if one did.
+	Signalled string
+	Stdin     *File
+	Stdout    *File
+	Stderr    *File
+	fds       map[int]*File
+	nextFd    int
+	touched   []*touch
+	Trace     []OpRec
+	Fired     []string
+	pl        *PowerLoss
 	// named pipes: how much of each has been delivered to this process, and
 	// the read schedule
 	fifoPos    map[string]*int
@@ -109,7 +117,7 @@ func (w *World) StartProc(spec ProcSpec) *Proc {
 	} else {
 		p.Stdin = &File{w: w, name: "/dev/stdin", kind: kPipeIn, fd: 0, pdata: spec.Stdin.Data, chunks: spec.Stdin.Chunks}
 	}
-	p.Stdout = &File{w: w, name: "/dev/stdout", kind: kSink, fd: 1, limit: spec.SinkLimit}
+	p.Stdout = &File{w: w, name: "/dev/stdout", kind: kSink, fd: 1, limit: spec.SinkLimit, sinkErr: spec.SinkErr}
 	p.Stderr = &File{w: w, name: "/dev/stderr", kind: kSink, fd: 2, limit: -1}
 	p.fds[0], p.fds[1], p.fds[2] = p.Stdin, p.Stdout, p.Stderr
 	w.P = p
